@@ -30,6 +30,7 @@ import (
 	"strings"
 	"sync"
 	"sync/atomic"
+	"syscall"
 	"time"
 
 	"github.com/internetarchive/Zeno/internal/pkg/archiver"
@@ -801,21 +802,45 @@ func c10HeapBytes() uint64 {
 	return pages * uint64(os.Getpagesize())
 }
 
-// c10Exec runs one case under the watchdog (deadline + heap ceiling). over = "" | "time" | "memory".
+// c10ThreadCPU: user+system CPU time consumed so far by one thread of this process (/proc/self/task/<tid>/stat).
+func c10ThreadCPU(tid int) time.Duration {
+	b, err := os.ReadFile("/proc/self/task/" + strconv.Itoa(tid) + "/stat")
+	if err != nil {
+		return 0
+	}
+	s := string(b)
+	f := strings.Fields(s[strings.LastIndexByte(s, ')')+1:])
+	if len(f) < 13 {
+		return 0
+	}
+	ut, _ := strconv.ParseInt(f[11], 10, 64)
+	st, _ := strconv.ParseInt(f[12], 10, 64)
+	return time.Duration(ut+st) * (time.Second / 100) // USER_HZ
+}
+
+// c10Exec runs one case under the watchdog. The case runs on a goroutine locked to its own OS thread, and the deadline
+// is measured in CPU TIME OF THAT THREAD, so a busy machine (16 shards, other checks) cannot fake a hang; a case that is
+// blocked without using CPU is caught by a wall-clock backstop of 60x the budget. over = "" | "time" | "memory".
 func c10Exec(c c10Case, budget time.Duration) (r c10Result, over string) {
 	ch := make(chan c10Result, 1)
-	go func() { ch <- c10Guarded(c) }()
-	timer := time.NewTimer(budget)
-	defer timer.Stop()
-	tick := time.NewTicker(100 * time.Millisecond)
+	tidCh := make(chan int, 1)
+	go func() {
+		runtime.LockOSThread() // never unlocked: the thread ends with the goroutine
+		tidCh <- syscall.Gettid()
+		ch <- c10Guarded(c)
+	}()
+	tid := <-tidCh
+	start := time.Now()
+	tick := time.NewTicker(50 * time.Millisecond)
 	defer tick.Stop()
 	for {
 		select {
 		case r = <-ch:
 			return r, ""
-		case <-timer.C:
-			return r, "time"
 		case <-tick.C:
+			if c10ThreadCPU(tid) > budget || time.Since(start) > 60*budget {
+				return r, "time"
+			}
 			if c10HeapBytes() > c10HeapLimit {
 				return r, "memory"
 			}
@@ -823,7 +848,7 @@ func c10Exec(c c10Case, budget time.Duration) (r c10Result, over string) {
 	}
 }
 
-// c10Budget: 10 s for inputs <= 64 KiB; above that the allowance grows with the square of the size, because honest
+// c10Budget: 10 s of CPU time for inputs <= 64 KiB; above that the allowance grows with the square of the size, because honest
 // parsers are quadratic in nesting depth (x/net/html scans its open-element stack per tag: 12 000 nested <div> = 2 s).
 // VERIF_C10_BUDGET_MS overrides the base (strict known-finding tests, tests of the harness itself).
 func c10Budget(n int) time.Duration {
@@ -977,7 +1002,7 @@ func c10HandleTimeout(t veriflib.TB, facet string, c c10Case, budget time.Durati
 		}
 		return
 	}
-	fmt.Printf("C10 watchdog: %s case did not return within %v (%d bytes); confirming 3x with %v\n", facet, budget, len(c.Body), 10*budget)
+	fmt.Printf("C10 watchdog: %s case did not return within %v of CPU time (%d bytes); confirming 3x with %v\n", facet, budget, len(c.Body), 10*budget)
 	var wg sync.WaitGroup
 	var hung, mem atomic.Int64
 	for i := 0; i < 3; i++ {
@@ -1003,7 +1028,7 @@ func c10HandleTimeout(t veriflib.TB, facet string, c c10Case, budget time.Durati
 		fmt.Printf("C10 INCONCLUSIVE: %s timeout reproduced only %d/3 times\n", facet, hung.Load())
 		return
 	}
-	msg := fmt.Sprintf("hang (key C10-hang-%s): the case did not return within %v and again 3 times within %v; stuck in: %s; target=%s url=%q ct=%q status=%d body=%s",
+	msg := fmt.Sprintf("hang (key C10-hang-%s): the case did not return within %v of CPU time and again 3 times within %v; stuck in: %s; target=%s url=%q ct=%q status=%d body=%s",
 		c10TestName(stuck), budget, 10*budget, stuck, c.Target, c.URL, c.CT, c.Status, c10Preview(c.Body))
 	veriflib.WriteFailure("C10", facet, c10Slim(c), map[string]any{"goroutines": string(dump)}, msg)
 	c10JournalEnd(facet)
@@ -1022,6 +1047,8 @@ func c10ShortPkg(pkg string) string {
 		return strings.Split(pkg, "/")[2]
 	case strings.HasPrefix(pkg, "golang.org/x/"):
 		pkg = strings.TrimPrefix(pkg, "golang.org/")
+	case !strings.Contains(strings.SplitN(pkg, "/", 2)[0], "."):
+		pkg = strings.SplitN(pkg, "/", 2)[0] // standard library: "regexp/syntax" and "regexp" are one call site
 	}
 	return strings.ReplaceAll(pkg, "/", ".")
 }
